@@ -25,7 +25,7 @@ const modPath = "github.com/platinummonkey/go-concurrency-limits"
 
 var (
 	nYield, nPreLock, nSkippedFuncs int
-	quiet                            bool
+	quiet                           bool
 )
 
 func main() {
